@@ -26,6 +26,7 @@ From LV Require Import Model.Outline Model.Toc Gen.QueryC
   Proofs.OutlineProofsForest Proofs.OutlineProofsFull Proofs.OutlineProofsProps Proofs.OutlineProofsPages.
 From LV Require Model.Query.
 From LV Require Import Model.TocNamed Proofs.OutlineProofsNamed Proofs.OutlineProofsNamedEx.
+From LV Require Proofs.OutlineProofsNameTree.
 
 (* the complete model (imported last, its names shadow Model/Toc.v's; spelled out for the reader) *)
 Notation get_toc := TocNamed.get_toc (only parsing).
@@ -186,6 +187,30 @@ Proof. exact toc_unreadable. Qed.
 Theorem C17_named_destinations_return :
   forall m cat, (exists nm, named_destinations m cat = WOk nm) \/ named_destinations m cat = WErr.
 Proof. exact named_destinations_returns. Qed.
+
+(* (4d) the condition holds for every WELL-FORMED name tree (independent description, Proofs/OutlineProofsNameTree.v:
+   [nt_repr m t tree]: the graph holds the finite tree t below the dictionary `tree` -- each intermediate node's Kids array lists
+   references to its kids, each a dictionary; Names arrays alternate string keys and values that are destinations as lopdf reads
+   them (a dictionary with D = array of >= 2 elements, direct or behind a reference; a reference to such an array) or something
+   lopdf skips) of at most NAME_TREE_DEPTH_LIMIT levels below the root ([levels]) and with at most objects.len() nodes below the
+   root ([below]; always true when the nodes are distinct objects): get_named_destinations returns Ok. *)
+Theorem C17_well_formed_name_tree_readable :
+  forall d cat tree t,
+    catalog d = Some cat -> named_tree (d_objects d) cat = Some tree ->
+    OutlineProofsNameTree.nt_repr (d_objects d) t tree ->
+    N.of_nat (OutlineProofsNameTree.levels t) <= NAME_TREE_DEPTH_LIMIT ->
+    (OutlineProofsNameTree.below t <= length (d_objects d))%nat ->
+    name_tree_readable d = true.
+Proof. exact OutlineProofsNameTree.wf_tree_readable. Qed.
+
+Theorem C17_example_well_formed_name_tree :
+  exists cat tree,
+    catalog nd_final = Some cat /\
+    named_tree (d_objects nd_final) cat = Some tree /\
+    OutlineProofsNameTree.nt_repr (d_objects nd_final) OutlineProofsNameTree.nd_shape tree /\
+    N.of_nat (OutlineProofsNameTree.levels OutlineProofsNameTree.nd_shape) <= NAME_TREE_DEPTH_LIMIT /\
+    (OutlineProofsNameTree.below OutlineProofsNameTree.nd_shape <= length (d_objects nd_final))%nat.
+Proof. exact OutlineProofsNameTree.nd_tree_wf. Qed.
 
 (* (4c) without a name tree the complete model is Model/Toc.v's (the model of the earlier rounds) *)
 Theorem C17_model_without_name_tree :
@@ -482,6 +507,8 @@ Print Assumptions C17_reads_back_no_name_tree.
 Print Assumptions C17_unreadable_name_tree_fails.
 Print Assumptions C17_named_destinations_return.
 Print Assumptions C17_model_without_name_tree.
+Print Assumptions C17_well_formed_name_tree_readable.
+Print Assumptions C17_example_well_formed_name_tree.
 Print Assumptions C17_reads_back_forest.
 Print Assumptions C17_reads_back_after_reload.
 Print Assumptions C17_name_tree_after_reload.
